@@ -1,4 +1,5 @@
 import Glom.Lemmas.C08Main
+import Glom.Lemmas.C08Rebuild
 import Glom.Model.Frames
 /-
   C08 — Modes apply exactly to the wrapped spec; Fill and argument mode keep shape.
@@ -80,6 +81,38 @@ theorem c08_iter_creation_scope {σ : Type} [ScopeAlg σ] (p : Prims) (rec : Rec
           let vs ← listLoop rec s sc items []
           pure (.stream vs, sc)) := rfl
 
+/-! ### Pipe is not a mode wrapper: a plain step of a chain is read in the mode around the chain -/
+
+/-- **A plain object is interpreted by the mode in force where it stands**: `_glom` hands a
+    non-spec-like object to `_ArgValuator.mode` in argument position, else to the function stored
+    under `scope[MODE]` — AUTO, FILL, `_glom_match` or GROUP — in a new child frame. -/
+theorem c08_plain_dispatch {σ : Type} [ScopeAlg σ] [LawfulScope σ] (p : Prims) (fuel : Nat) (s : Spec) (t : V)
+    (sc : σ) (hs : s.isSpecLike = false) :
+    interp p (fuel + 1) s t sc =
+      (do let v ← plainFn p (interp p fuel) (argMode sc) (mode sc) s t (child sc); pure (v, child sc)) := by
+  simp only [interp, hs, LawfulScope.argMode_child, LawfulScope.mode_child, plainFn]
+  cases argMode sc <;> cases mode sc <;> rfl
+
+/-- **Every step of a tuple / Pipe is evaluated in the mode of the chain's owner** (and with the
+    owner's argument flag), at every position and whatever the earlier steps did: the behaviour of
+    the evaluator at scopes with another mode cannot influence the chain. -/
+theorem c08_chain_steps_owner_mode {σ : Type} [ScopeAlg σ] [LawfulScope σ] (rec1 rec2 : Rec σ) (steps : List Spec)
+    (res : V) (cur : σ) (last : Option σ)
+    (h : ∀ s t (c : σ), mode c = mode cur → argMode c = argMode cur → rec1 s t c = rec2 s t c) :
+    tupleLoop rec1 steps res cur last = tupleLoop rec2 steps res cur last :=
+  tupleLoop_mode_congr (mode cur) (argMode cur) h steps res cur last rfl rfl
+
+/-- **A plain step of a chain** — a tuple, a list, a dict, a str … at any position of a tuple / Pipe —
+    **is interpreted by the mode function of the mode in force around the chain**: under Fill a
+    tuple step is a tuple constructor (`fillFn`, shape kept: `c08_fill_shape`), under Match a tuple
+    pattern (`matchFn`), in AUTO mode a nested chain.  A Pipe does not splice it into its own steps. -/
+theorem c08_plain_step_of_chain {σ : Type} [ScopeAlg σ] [LawfulScope σ] (p : Prims) (fuel : Nat) (s : Spec) (t : V)
+    (cur : σ) (last : Option σ) (hs : s.isSpecLike = false) :
+    interp p (fuel + 1) s t (nextScope cur last) =
+      (do let v ← plainFn p (interp p fuel) (argMode cur) (mode cur) s t (child (nextScope cur last))
+          pure (v, child (nextScope cur last))) := by
+  rw [c08_plain_dispatch p fuel s t _ hs, nextScope_mode, nextScope_argMode]
+
 /-! ### Fill mode and argument mode keep shape -/
 
 theorem mapLoop_length {σ : Type} [ScopeAlg σ] (rec : Rec σ) (t : V) (sc : σ) :
@@ -127,6 +160,110 @@ theorem c08_literals {σ : Type} [ScopeAlg σ] (p : Prims) (rec : Rec σ) (t : V
     fillFn p rec (.fn n k) t own = callFn p n k [t] [] ∧ argModeFn p rec (.fn n k) t own = pure (.fn n k) :=
   ⟨rfl, rfl, rfl, rfl, rfl, rfl⟩
 
+/-! ### self-referential containers in argument position: `rebuild` terminates and keeps the shape
+
+`rebuildItem` (`Glom/Spec/C08.lean`) is `recur(val)` of `_ArgValuator.mode` on a heap of spec
+containers: lists and dicts are memoised by identity *before* their items are visited, tuples are
+rebuilt structurally.  The fuel bounds the recursion depth only. -/
+
+/-- **The fuel is irrelevant**: once a run has enough fuel, every larger fuel gives the same result. -/
+theorem c08_rebuild_fuel_irrelevant (ev : Spec → Except Err V) (nodes : List GNode) (item : GItem) (memo : Memo)
+    (r : Except Err (GOut × Memo)) (f f' : Nat) (h : rebuildItem ev nodes f item memo = some r) (hle : f ≤ f') :
+    rebuildItem ev nodes f' item memo = some r :=
+  rebuild_fuel_mono ev nodes item memo r f h f' hle
+
+/-- **`rebuild` terminates on every container heap** — any number of nodes, any cycles through lists
+    and dicts, any sharing — provided the tuple-only reference paths are acyclic (which Python
+    guarantees: a tuple's items exist before the tuple): the recursion depth `fuelBound nodes`
+    suffices, the result is the same for every larger fuel, and `rebuild` never reports `OutOfFuel`
+    unless a leaf raised it. -/
+theorem c08_rebuild_terminates (ev : Spec → Except Err V) (nodes : List GNode) (hacyc : TupleAcyclic nodes)
+    (root : GItem) :
+    ∃ r, (∀ fuel, fuelBound nodes ≤ fuel → rebuildItem ev nodes fuel root [] = some r) ∧
+      rebuild ev nodes root = r.map (·.1) := by
+  obtain ⟨r, hr⟩ := rebuild_terminates ev nodes hacyc root
+  refine ⟨r, fun fuel hle => rebuild_fuel_mono ev nodes root [] r _ hr fuel hle, ?_⟩
+  simp only [rebuild, hr]
+
+/-- **`rebuild` preserves the shape**: a successful result is isomorphic to the part of the spec heap
+    reachable from the root (`RebuildIso`, `Glom/Spec/C08Graph.lean`) — the memo `φ` is a bijection
+    between the reachable lists / dicts and the numbers `0 … k-1` in first-visit order; every number is
+    defined exactly once in the result, in that order; every rebuilt node has the kind and, item by
+    item in order, the items of its spec node, with leaves replaced by their values, references to
+    lists / dicts following `φ` (shared nodes stay shared, cycles stay cycles) and tuples rebuilt
+    structurally. -/
+theorem c08_rebuild_iso (ev : Spec → Except Err V) (nodes : List GNode) (root : GItem) (out : GOut)
+    (h : rebuild ev nodes root = .ok out) : ∃ φ, RebuildIso ev nodes root out φ := by
+  unfold rebuild at h
+  split at h
+  · rename_i r hr
+    cases r with
+    | error e => simp [Except.map] at h
+    | ok om =>
+      obtain ⟨o, φ⟩ := om
+      simp only [Except.map, Except.ok.injEq] at h
+      subst h
+      exact ⟨φ, rebuild_iso ev nodes _ root o φ hr⟩
+  · simp at h
+
+/-- … for every fuel, not only the bound `rebuild` uses -/
+theorem c08_rebuild_iso_fuel (ev : Spec → Except Err V) (nodes : List GNode) (fuel : Nat) (root : GItem)
+    (out : GOut) (φ : Memo) (h : rebuildItem ev nodes fuel root [] = some (.ok (out, φ))) :
+    RebuildIso ev nodes root out φ := rebuild_iso ev nodes fuel root out φ h
+
+/-- what the isomorphism gives, spelled out: `φ` is injective, its numbers are `< φ.length`, only
+    lists / dicts are rebuilt -/
+theorem c08_rebuild_bijection (ev : Spec → Except Err V) (nodes : List GNode) (root : GItem) (out : GOut)
+    (φ : Memo) (h : RebuildIso ev nodes root out φ) :
+    (∀ i j n, φ.lookup i = some n → φ.lookup j = some n → i = j) ∧
+    (∀ i n, φ.lookup i = some n → n < φ.length ∧ IsMutable nodes i) ∧
+    (∀ n, n < φ.length → ∃ d ys, n ∈ out.defNums ∧ DefOK ev nodes φ d n ys) := by
+  refine ⟨memoInv_inj nodes φ h.memo_inv, ?_, ?_⟩
+  · intro i n hn
+    have := memoInv_mem nodes φ h.memo_inv i n (mem_of_lookup φ i n hn)
+    exact ⟨this.2, this.1⟩
+  · intro n hn
+    have hmem : n ∈ out.defNums := by rw [h.def_order]; exact List.mem_range.mpr hn
+    obtain ⟨d, ys, hd⟩ := def_of_mem_defNums _ out h.defs_ok n hmem
+    exact ⟨d, ys, hmem, hd⟩
+
+/-- **An error of `rebuild` is the error of a leaf**: it was raised by the evaluation of a leaf spec
+    reachable from the root (or it is `BadGraph`: a reference pointing outside the heap). -/
+theorem c08_rebuild_error_provenance (ev : Spec → Except Err V) (nodes : List GNode) (fuel : Nat) (root : GItem)
+    (memo : Memo) (e : Err) (h : rebuildItem ev nodes fuel root memo = some (.error e)) :
+    (∃ s, ReachLeaf nodes root s ∧ ev s = .error e) ∨
+    (e = ⟨"BadGraph"⟩ ∧ ∃ j, ReachItem nodes root j ∧ nodes[j]? = Option.none) :=
+  (rebuild_error ev nodes fuel).1 root memo e h
+
+/-- the generator's heaps (a tuple inside a tuple has a larger index) are in the domain of the theorem -/
+theorem c08_forward_tuples_acyclic (nodes : List GNode) (h : tuplesForward nodes = true) : TupleAcyclic nodes := by
+  refine ⟨fun i => nodes.length - i, fun i => Nat.sub_le _ _, ?_⟩
+  intro i nd j nd' hnd hk hj hnd' hk'
+  have hi : i < nodes.length := (List.getElem?_eq_some_iff.mp hnd).1
+  have hjl : j < nodes.length := (List.getElem?_eq_some_iff.mp hnd').1
+  have h1 := List.all_eq_true.mp h i (List.mem_range.mpr hi)
+  simp only [hnd, hk, bne_self_eq_false, Bool.false_or] at h1
+  have h2 := List.all_eq_true.mp h1 (.ref j) hj
+  simp only [hnd', hk', bne_self_eq_false, Bool.false_or, decide_eq_true_eq] at h2
+  show nodes.length - j < nodes.length - i
+  omega
+
+/-- **The hypothesis is forced**: on a tuple that contains itself — not constructible in Python —
+    the recursion has no end: every fuel is exhausted. -/
+theorem c08_rebuild_tuple_cycle_counterexample (ev : Spec → Except Err V) :
+    let nodes : List GNode := [⟨.tuple, [.ref 0]⟩]
+    ∀ fuel, rebuildItem ev nodes fuel (.ref 0) [] = Option.none := by
+  intro nodes
+  suffices h : ∀ fuel, rebuildItem ev nodes fuel (.ref 0) [] = Option.none ∧
+      rebuildItems ev nodes fuel [.ref 0] [] = Option.none from fun fuel => (h fuel).1
+  intro fuel
+  induction fuel with
+  | zero => exact ⟨rfl, rfl⟩
+  | succ fuel ih =>
+    constructor
+    · simp only [rebuildItem, nodes, List.lookup, List.getElem?_cons_zero, ih.2]
+    · simp only [rebuildItems, ih.1]
+
 /-! ### why `chain_child` must reset the mode: the pre-repair scope is *not* lexical -/
 
 /-- the scope as glom had it before the repair of F4: `chain_child` hands on the last child's
@@ -150,9 +287,35 @@ theorem c08_F4_counterexample :
     probesOf (interp (σ := Frames) trivialPrims 8 spec .none root {}).1.log = [(1, .fill), (2, .auto)] := by
   refine ⟨by rfl, by decide, by rfl⟩
 
+private def tyPrims : Prims :=
+  { trivialPrims with isinstance := fun v n => match v, n with
+      | .int _, "int" => true
+      | .tuple _, "tuple" => true
+      | _, _ => false }
+
+/-- **Splicing a tuple step into the Pipe is not equivalent.**  `Fill(Pipe((T, T)))` builds the
+    pair `(t, t)`; the spliced `Fill(Pipe(T, T))` chains the two items and yields `t`.  Likewise
+    under Match: `Match(Pipe((int, int)))` accepts the pair `(1, 2)`, the spliced pipe rejects it
+    (the pair is not an int). -/
+theorem c08_pipe_splice_counterexample :
+    let root : Frames := [{ mode := some .auto, arg := some false }]
+    let run := fun (s : Spec) (t : V) =>
+      (Except.map Prod.fst (interp (σ := Frames) tyPrims 8 s t root {}).2 : Except Err V)
+    run (.fill (.pipe [.tuple [.t [], .t []]])) (.int 1) = .ok (.tuple [.int 1, .int 1]) ∧
+    run (.fill (.pipe [.t [], .t []])) (.int 1) = .ok (.int 1) ∧
+    run (.mtch (.pipe [.tuple [.ty "int", .ty "int"]]) Option.none) (.tuple [.int 1, .int 2]) =
+      .ok (.tuple [.int 1, .int 2]) ∧
+    run (.mtch (.pipe [.ty "int", .ty "int"]) Option.none) (.tuple [.int 1, .int 2]) =
+      .error ⟨"TypeMatchError"⟩ := by
+  refine ⟨by rfl, by rfl, by rfl, by rfl⟩
+
 /-! ### non-vacuity -/
 
 example : noRefF 8 (.tuple [.fill (.probe 1), .probe 2]) = true := by decide
+example : (Spec.tuple [.t [], .str "lit"]).isSpecLike = false := rfl
+-- a tuple step of a Pipe under Fill, two Specs / a Coalesce below the wrapper, is mode-sensitive for the checker
+example : modeSensitiveF 8 .auto false (.fill (.specW (.coalesce [.pipe [.t [], .tuple [.t []]]] Option.none Option.none .never []) [])) = true := by decide
+example : modeSensitiveF 8 .auto false (.tuple [.str "a", .pipe [.tuple [.str "b"]], .auto (.fill (.auto (.str "a")))]) = false := by decide
 example : annotF 8 .auto (.tuple [.fill (.tuple [.probe 1, .mtch (.probe 3) Option.none]), .probe 2]) =
     [(1, .fill), (3, .mtch), (2, .auto)] := by decide
 example : annotF 8 .auto (.switch [(.mtch (.ty "int") Option.none, .probe 1), (.fill (.probe 2), .probe 3)]
@@ -171,5 +334,33 @@ example :
     let root : Frames := [{ mode := some .auto, arg := some false }]
     probesOf (interp (σ := Frames) onePrims 8 spec .none root {}).1.log = [(1, .fill), (2, .auto)] := by
   rfl
+
+/-! ### `rebuild`: a concrete cyclic heap -/
+
+/-- `a = [ (a, b), T ]`, `b = {'k': a, 'self': b}` with the tuple shared — lists, a dict, a tuple on the
+    cycle; leaves evaluate to the target -/
+private def demoHeap : List GNode :=
+  [⟨.list, [.ref 2, .leaf (.t [])]⟩,
+   ⟨.dict, [.leaf (.str "k"), .ref 0, .leaf (.str "self"), .ref 1]⟩,
+   ⟨.tuple, [.ref 0, .ref 1]⟩]
+
+private def demoEv (t : V) : Spec → Except Err V
+  | .t [] => .ok t
+  | .str s => .ok (.str s)
+  | _ => .error ⟨"Unsupported"⟩
+
+example : tuplesForward demoHeap = true := by decide
+example : TupleAcyclic demoHeap := c08_forward_tuples_acyclic demoHeap (by decide)
+-- a tuple nested in a tuple, both on a cycle through a list
+example : tuplesForward [⟨.list, [.ref 1]⟩, ⟨.tuple, [.ref 2, .ref 0]⟩, ⟨.tuple, [.ref 0]⟩] = true := by decide
+
+/-- list 0 = [ (ref 0, dict 1 = {k: ref 0, self: ref 1}), 7 ] -/
+example : rebuild (demoEv (.int 7)) demoHeap (.ref 0) =
+    .ok (.node false 0 [.tuple [.ref 0, .node true 1 [.leaf (.str "k"), .ref 0, .leaf (.str "self"), .ref 1]],
+      .leaf (.int 7)]) := by rfl
+
+/-- a failing leaf: its error is the result -/
+example : rebuild (demoEv (.int 7)) (demoHeap ++ [⟨.list, [.leaf (.val .none)]⟩]) (.ref 3) =
+    .error ⟨"Unsupported"⟩ := by rfl
 
 end Glom.Props.C08
